@@ -53,11 +53,12 @@ def witness(ctx, inst):
     return steps
 
 
-def tables(ctx, claims, nmax):
+def tables(ctx, claims, nmax, smax=None):
     """Check claims against OptTables.  Returns indices (0-based) of claims that differ."""
     path = os.path.join(ctx.dir, "claims.json")
     json.dump(claims, open(path, "w"))
-    r = tlc.run("OptTables", env={"CLAIMS_FILE": path, "OPT_NMAX": str(nmax)}, timeout=1200,
+    r = tlc.run("OptTables", env={"CLAIMS_FILE": path, "OPT_NMAX": str(nmax),
+                                  "OPT_SMAX": str(nmax if smax is None else smax)}, timeout=1200,
                 workers=1)
     ctx.add_run("OptTables", r)
     inv = tlc.invariant_violated(r)
@@ -181,10 +182,38 @@ def _steps_check(ctx, pid, kind, cfgs, search_n, table_n, helper_n, deps):
     return viols, cov
 
 
+def planner_scan(ctx, nmax, smax):
+    """TLC-guided selection: every step size the binomial planner n_advance(n, s) chooses for
+    n <= nmax, s <= smax, both trajectories, is checked against the Bellman equation of the
+    binomial recurrence (OptTables, claims of kind "adv").  A step that fails it is not yet a
+    violation - the configurations it points at are added to the trace box and decided there."""
+    record.lib()
+    try:
+        from checkpoint_schedules.multistage import n_advance
+    except Exception:
+        return [], 0
+    claims, meta = [], []
+    for n in range(2, nmax + 1):
+        for s in range(1, min(n - 1, smax) + 1):
+            for traj, name in ((0, "maximum"), (1, "revolve")):
+                try:
+                    v = int(n_advance(n, s, trajectory=name))
+                except Exception:
+                    v = -1
+                claims.append({"kind": "adv", "n": n, "s": s, "v": v})
+                meta.append((n, s, traj))
+    bad = tables(ctx, claims, nmax, smax)
+    return [meta[b] for b in bad], len(claims)
+
+
 def check_c05(ctx):
     q = ctx.tier == "quick"
     sn, tn, hn = (10, 40, 60) if q else (14, 90, 150)
     cfgs = boxes.multistage(12 if q else 20)
+    suspects, scanned = planner_scan(ctx, 200 if q else 500, 12)
+    for n, s, traj in sorted(suspects)[:16]:
+        cfgs.append(mkcfg("Multistage", max_n=n, ram=0, disk=s, traj=traj))
+        tn = max(tn, n)
     for n in range((13 if q else 21), tn + 1):
         for s in range(1, n):
             for t in (0, 1):
